@@ -367,7 +367,7 @@ PROPS = {
     "C10": {
         "lean_modules": ["MocProps.C10", "MocProps.C10Filter", "MocProps.C10DED"], "theorem_files": ["MocProps/C10.lean", "MocProps/C10Filter.lean", "MocProps/C10DED.lean"],
         "gen_groups": ["Codec", "Consts"], "harness_prop": "codec", "driver_prop": "codec",
-        "monitors": ["nopanic", "roundtrip"],
+        "monitors": ["nopanic", "roundtrip", "filled"],
         "n_quick": 40000, "n_thorough": 400000, "thorough_seeds": 3,
         "rule": CODEC_RULE,
         "level_text": "Partial by nature: on JSON trees the decoders are total functions (no panic outcome exists) and the proved round trips are Event (all seven fields, event_roundtrip), "
@@ -402,22 +402,28 @@ PROPS = {
         "assumptions": ["a JSON null in place of an object is not claimed either way", "signed or zero-padded kind numbers inside an a value are not claimed either way"],
     },
     "C01": {
-        "lean_modules": ["MocProps.C01"], "theorem_files": ["MocProps/C01.lean"],
+        "lean_modules": ["MocProps.C01", "MocProps.C01Sig"], "theorem_files": ["MocProps/C01.lean", "MocProps/C01Sig.lean"],
         "gen_groups": ["Serialize"],
         "n_quick": 8000, "n_thorough": 40000, "thorough_seeds": 2, "timeout": 7000,
         "monitors": ["canonical", "authentic"],
         "extra_streams": [{"harness_prop": "ws", "driver_prop": "ws", "monitors": ["gate"], "n_quick": 500, "n_thorough": 5000, "replay_op": "ws"}],
         "rule": "events whose content and tag values are drawn per character class (ASCII, the 7 mandated escapes, other C0 controls, < > &, U+2028/9, DEL/C1, BMP, astral, combining; long "
                 "strings), all kinds / created_at signs / tag shapes, freshly signed with btcec through an independent NIP-01 serializer; for each: Serialize() bytes, their SHA-256 (also "
-                "recomputed by a Lean SHA-256), Verify(); then 3 single-field or single-bit alterations (content, created_at, kind, tags, pubkey, one bit of id / sig / pubkey) and malformed "
-                "hex variants; thorough adds ALL 1,112,064 Unicode scalar values as one-character content and tag value; non-trivial = every case; distinct = distinct output line",
+                "recomputed by a Lean SHA-256), Verify(); then 4 alterations out of: single-field or single-bit changes (content, created_at, kind, tags, pubkey, one bit of id / sig / pubkey), "
+                "forgeries with a recomputed id so that the signature check is reached (changed content, another key, one pubkey bit, pubkey edge values x = p-1.. / 0 / not on the curve / wrong length), "
+                "signature edge cases (r = p, r = 2^256-1, r = 0, s = n, s = 2^256-1, s = 0, s negated mod n, a valid signature over another message, a valid signature by another key, wrong length) and malformed "
+                "hex variants; every case whose id passes is decided by the Lean BIP-340 (fast version; the BIP's reference algorithm as well on one in sixteen) and btcec's answers are compared with the Lean model of btcec; thorough adds ALL 1,112,064 Unicode scalar values as one-character content and tag value; non-trivial = every case; distinct = distinct output line",
         "level_text": "Partial by nature (cryptography): proved for EVERY event — the serialized form that is hashed is the NIP-01 canonical form, character by character, incl. < > & U+2028 U+2029 "
                       "and all planes (escRune_eq_canonChar, serialize_eq_canonical; escape table regenerated from the code), and Verify reports authentic exactly when the id decodes to the hash of "
                       "that form and pubkey/signature decode, parse and pass the BIP-340 check (verify_true_iff; id_mismatch_not_authentic, bad_signature_not_authentic). That every correctly "
                       "signed event verifies and that altering a signed field changes the hash / breaks the signature are cryptographic facts: validated on every generated signature and "
-                      "alteration (btcec as oracle, Lean SHA-256 as cross-check), not proved.",
-        "level_note": "Trusted: Lean kernel + standard axioms; go2lean; harness/driver; crypto/sha256 (cross-checked by the Lean implementation on every case), btcec Schnorr, encoding/hex; "
-                      "SHA-256 collision resistance and BIP-340 unforgeability.",
+                      "alteration, not proved. The signature verdict is no longer taken from the implementation's library: MocModel/Bip340.lean is an executable BIP-340 (reference algorithm and a "
+                      "Jacobian fast version, checked against the BIP's vectors and against each other), verifyFull_true_iff / verifyFull_true_bip340 state Verify end to end (Lean SHA-256, Lean "
+                      "signature check), and the monitors judge the implementation against the BIP itself. The correspondence found that btcec v2.3.4's ParseSignature does not reject s >= n (it is "
+                      "reduced mod n): modelled as it is (verifyLib, verifyLib_eq_of_s_lt, out_of_range_s_window: fewer than 2^129 of 2^256 values of s, no such signature can be constructed "
+                      "without breaking the scheme); an accepted out-of-range signature would be reported as inauthentic-accepted.",
+        "level_note": "Trusted: Lean kernel + standard axioms; go2lean; harness/driver; crypto/sha256 and btcec Schnorr (both cross-checked by the Lean implementations on every case that reaches them), encoding/hex; "
+                      "that the Jacobian fast version of the Lean BIP-340 equals the reference version (executed against each other, not proved); SHA-256 collision resistance and BIP-340 unforgeability.",
         "assumptions": ["events carry a non-nil tag list (Event.Valid); invalid UTF-8 cannot pass the gate", "ids/pubkeys/sigs in lower-case hex for the monitors (upper case is compared with the model only)"],
     },
     "C12": {
